@@ -56,7 +56,7 @@ def evaluate(case, stt):
     fails = []
     accepted = False
     if case["kind"] == "program":
-        r = render.render(case["prog"], render.Tape(case["spell"]), render.Tape(case["layout"]) if case["layout"] else None)
+        r = render.render(case["prog"], render.Tape(case["spell"]), render.Tape(case["layout"]) if case["layout"] else None, cr=True)
         text = r.text
         if case["cut"] is not None:
             text = text[: case["cut"] % (len(text) + 1)]
